@@ -490,3 +490,50 @@ func Apply(s *State, op Op) (int, error) {
 	}
 	return Applied, nil
 }
+
+// NamePreserving lists the operations that keep the tip set: a history drawn from them can
+// precede any check whose case names tips of the start tree.
+var NamePreserving = []string{"reroot", "midpoint", "unroot", "collapse_len", "collapse_sup", "collapse_depth", "resolve", "rotate", "sort",
+	"rotate_node", "nni", "nni_undo", "nni_double", "shuffle_tips", "clone", "reinit", "clear_supports", "scale_lengths", "round_supports",
+	"reroot_first", "comments_set", "comments_clear"}
+
+// GenHistory draws 1..max name-preserving operations.
+func GenHistory(t *rapid.T, max int) []Op {
+	return rapid.SliceOfN(rapid.Custom(func(t *rapid.T) Op { return GenOp(t, NamePreserving) }), 1, max).Draw(t, "history")
+}
+
+// Replay applies a history to a tree (a step that fails restarts from the text before it, as a
+// caller that checks errors would) and returns the edited tree together with the model read back
+// from it through the traversal API. ok is false when the result is no longer a tree a check
+// can start from (fewer than 3 tips, a root with fewer than 2 children, duplicate names).
+func Replay(t *tree.Tree, hist []Op) (out *tree.Tree, model *ref.Node, ok bool, err error) {
+	st := State{T: t}
+	for _, op := range hist {
+		before := st.T.Newick()
+		if status, _ := Apply(&st, op); status == Failed {
+			if st.T, err = gt.Parse(before); err != nil {
+				return nil, nil, false, err
+			}
+		}
+	}
+	m, err := gt.Read(st.T)
+	if err != nil {
+		return nil, nil, false, nil
+	}
+	if len(m.Tips()) < 3 || len(m.Ch) < 2 {
+		return nil, nil, false, nil
+	}
+	if _, terr := ref.NewTaxa(m.Tips()); terr != nil {
+		return nil, nil, false, nil
+	}
+	single := false
+	m.Walk(func(x, p *ref.Node) {
+		if p != nil && !x.IsTip() && len(x.Ch) == 1 {
+			single = true
+		}
+	})
+	if single {
+		return nil, nil, false, nil
+	}
+	return st.T, m, true, nil
+}
